@@ -66,6 +66,10 @@ func (c09) Cases(tier string, seed uint64) []fw.Case {
 		// a size-limited shared cache: whole index caches are evicted while searches and the writer
 		// use them (also the cache the writer itself holds), and are rebuilt by whoever comes next
 		{"many-warm-small-cache", 8, "warm", false, 300},
+		// two clients writing at the same time (disjoint points): batches queue for the storage write
+		// lock while the cache transaction of the earlier one is still to be committed
+		{"two-writers-small-cache", 6, "warm", false, 300},
+		{"two-writers", 6, "partial", false, 400},
 		{"forced-interleavings", 1, "warm", false, 200},
 	}
 	batches := 40
@@ -82,13 +86,13 @@ func (c09) Cases(tier string, seed uint64) []fw.Case {
 			if tier == "thorough" && p.start == "cold" {
 				pre = 6000
 			}
-			cs = append(cs, fw.Case{Seed: fw.CaseSeed(seed, "C09", i), Name: p.name, Params: map[string]any{"phase": p.name, "searchers": p.searchers, "start": p.start, "lazy": p.lazy, "prefill": pre, "batches": batches}})
+			cs = append(cs, fw.Case{Seed: fw.CaseSeed(seed, "C09", i), Name: p.name, Params: map[string]any{"phase": p.name, "searchers": p.searchers, "start": p.start, "lazy": p.lazy, "prefill": pre, "batches": batches, "writers": map[bool]int{true: 2, false: 1}[strings.HasPrefix(p.name, "two-writers")]}})
 			i++
 			// the same phase on the build without the race detector: about five times as many searches per
 			// commit, which is what it took to see stale caches under a size limit
-			if p.name == "many-warm-small-cache" || p.name == "many-partially-warm" || p.name == "many-warm" {
+			if p.name == "many-warm-small-cache" || p.name == "many-partially-warm" || p.name == "many-warm" || strings.HasPrefix(p.name, "two-writers") {
 				for rep := 0; rep < 3; rep++ {
-					cs = append(cs, fw.Case{Seed: fw.CaseSeed(seed, "C09", i), Name: p.name + "/plain-build", Params: map[string]any{"phase": p.name, "searchers": p.searchers, "start": p.start, "lazy": p.lazy, "prefill": pre, "batches": batches, "plain_build": true}})
+					cs = append(cs, fw.Case{Seed: fw.CaseSeed(seed, "C09", i), Name: p.name + "/plain-build", Params: map[string]any{"phase": p.name, "searchers": p.searchers, "start": p.start, "lazy": p.lazy, "prefill": pre, "batches": batches, "plain_build": true, "writers": map[bool]int{true: 2, false: 1}[strings.HasPrefix(p.name, "two-writers")]}})
 					i++
 				}
 			}
@@ -346,7 +350,7 @@ func (c09) RunCase(c fw.Case, env *fw.Env) *fw.CaseResult {
 	m := model.New()
 	verN := 0
 	nextVer := func() string { verN++; return fmt.Sprintf("v%d", verN) }
-	stamp := func(op *gen.Op) {
+	stamp := func(g *gen.G, op *gen.Op) {
 		for i := range op.Points {
 			if op.Kind == gen.OpInsert {
 				// pad so that the file crosses bbolt's mmap growth steps during the run
@@ -370,7 +374,7 @@ func (c09) RunCase(c fw.Case, env *fw.Env) *fw.CaseResult {
 			for i := 0; i < n; i++ {
 				op.Points = append(op.Points, model.Point{Id: g.NewId(), Doc: g.Doc()})
 			}
-			stamp(&op)
+			stamp(g, &op)
 			if ok, _ := applyOp(res, "C09", s, m, op, -1); !ok {
 				s.Close()
 				return res
@@ -441,60 +445,91 @@ func (c09) RunCase(c fw.Case, env *fw.Env) *fw.CaseResult {
 		wg.Add(1)
 		go r.searcher(i+1, fw.SplitMix(c.Seed+uint64(i)), c.Bool("lazy", false), stop, &wg, live)
 	}
-	h := gen.NewHistory(g)
-	h.MaxBatch = 30
-	h.RejectProb = 0.1
 	batches := c.Int("batches", 40)
-	for b := 0; b < batches; b++ {
-		op := h.Next(m)
-		if op.Kind == gen.OpInsert && b%4 == 0 {
-			for len(op.Points) < 60 {
-				op.Points = append(op.Points, model.Point{Id: g.NewId(), Doc: g.Doc()})
+	var verMu sync.Mutex
+	// one writer stream: its own generator, model and id space (two streams never touch the same point,
+	// so each is judged against its own model; storage serialises their batches in some order)
+	runWriter := func(client int, g *gen.G, m *model.Model, batches int, shareLive bool) {
+		h := gen.NewHistory(g)
+		h.MaxBatch = 30
+		h.RejectProb = 0.1
+		for b := 0; b < batches; b++ {
+			op := h.Next(m)
+			if op.Kind == gen.OpInsert && b%4 == 0 {
+				for len(op.Points) < 60 {
+					op.Points = append(op.Points, model.Point{Id: g.NewId(), Doc: g.Doc()})
+				}
 			}
-		}
-		stamp(&op)
-		call := r.now()
-		ok, out := applyOp(res, "C09", s, m, op, b)
-		ret := r.now()
-		if !ok {
-			break
-		}
-		h.Applied(op, out.Deleted)
-		if out.Succeeded {
-			r.commits.Add(1)
-			evs := []c09Event{}
-			switch op.Kind {
-			case gen.OpDelete:
-				for _, id := range out.Deleted {
-					evs = append(evs, c09Event{client: 0, in: c09Op{kind: "delete", key: id.String()}, call: call, ret: ret})
-				}
-			case gen.OpInsert:
-				for _, p := range op.Points {
-					v, _ := verOf(p.Doc)
-					evs = append(evs, c09Event{client: 0, in: c09Op{kind: "write", key: p.Id.String(), ver: v}, call: call, ret: ret})
-				}
-			case gen.OpUpdate:
-				// several updates of one id in a batch: the last version wins, the
-				// earlier ones are never committed states
-				last := map[uuid.UUID]string{}
-				for _, p := range op.Points {
-					if _, lives := m.Docs[p.Id]; lives {
+			verMu.Lock()
+			stamp(g, &op)
+			verMu.Unlock()
+			call := r.now()
+			ok, out := applyOp(res, "C09", s, m, op, b)
+			ret := r.now()
+			if !ok {
+				break
+			}
+			h.Applied(op, out.Deleted)
+			if out.Succeeded {
+				r.commits.Add(1)
+				evs := []c09Event{}
+				switch op.Kind {
+				case gen.OpDelete:
+					for _, id := range out.Deleted {
+						evs = append(evs, c09Event{client: client, in: c09Op{kind: "delete", key: id.String()}, call: call, ret: ret})
+					}
+				case gen.OpInsert:
+					for _, p := range op.Points {
 						v, _ := verOf(p.Doc)
-						last[p.Id] = v
+						evs = append(evs, c09Event{client: client, in: c09Op{kind: "write", key: p.Id.String(), ver: v}, call: call, ret: ret})
+					}
+				case gen.OpUpdate:
+					// several updates of one id in a batch: the last version wins, the
+					// earlier ones are never committed states
+					last := map[uuid.UUID]string{}
+					for _, p := range op.Points {
+						if _, lives := m.Docs[p.Id]; lives {
+							v, _ := verOf(p.Doc)
+							last[p.Id] = v
+						}
+					}
+					for id, v := range last {
+						evs = append(evs, c09Event{client: client, in: c09Op{kind: "write", key: id.String(), ver: v}, call: call, ret: ret})
 					}
 				}
-				for id, v := range last {
-					evs = append(evs, c09Event{client: 0, in: c09Op{kind: "write", key: id.String(), ver: v}, call: call, ret: ret})
+				r.record(evs...)
+				if shareLive {
+					liveMu.Lock()
+					liveIds = m.SortedIds()
+					liveMu.Unlock()
 				}
 			}
-			r.record(evs...)
-			liveMu.Lock()
-			liveIds = m.SortedIds()
-			liveMu.Unlock()
+			res.Stat("write_batches", 1)
+			if b%8 == 7 && shareLive {
+				fw.SavePartial(env, res)
+			}
 		}
-		res.Stat("write_batches", 1)
-		if b%8 == 7 {
-			fw.SavePartial(env, res)
+	}
+	var m2 *model.Model
+	var w2 sync.WaitGroup
+	if c.Int("writers", 1) >= 2 {
+		// a second write stream from another client (its own points only)
+		m2 = model.New()
+		g2 := gen.New(c.Seed^0x5ec0d, schema)
+		g2.NoLattice = true
+		g2.ExtraProb = 0.3
+		w2.Add(1)
+		go func() {
+			defer w2.Done()
+			runWriter(100, g2, m2, batches, false)
+		}()
+		res.Stat("runs_with_two_write_streams", 1)
+	}
+	runWriter(0, g, m, batches, true)
+	w2.Wait()
+	if m2 != nil {
+		for id, d := range m2.Docs {
+			m.Docs[id] = d
 		}
 	}
 	// let the searchers overlap the tail, then stop them
